@@ -278,6 +278,7 @@ class BlockTag(Tag):
 
     name = "block"
     block = True
+    end = "endblock"
     node_class = BlockNode
     end_block = frozenset(["endblock"])
 
